@@ -136,7 +136,7 @@ def shards(tier):
     return out
 
 
-def make_ruleset(rules_spec, hits, multipliers=None):
+def make_ruleset(rules_spec, hits, multipliers=None, equivalence_groups=()):
     profiles = sorted({"a", "b"} | {p for table in hits.values() for p in table})
 
     def mk(profile):
@@ -152,7 +152,7 @@ def make_ruleset(rules_spec, hits, multipliers=None):
             ext = U.build(extender)
         rules.append(rule_parser.DetectionRule(name, "cat", cutoff, neigh, U.top(tree), superiors=list(superiors), extenders=ext))
     extra = {"multipliers": multipliers} if multipliers is not None else {}
-    return cluster_prediction.Ruleset(tuple(rules), {}, "", {"cat"}, "tool", dynamic_profiles=dyn, equivalence_groups=[], **extra)
+    return cluster_prediction.Ruleset(tuple(rules), {}, "", {"cat"}, "tool", dynamic_profiles=dyn, equivalence_groups=[set(group) for group in equivalence_groups], **extra)
 
 
 def components(names, sets, cutoff, L, circular):
